@@ -1,62 +1,110 @@
 from excel2pycl.src.context import Context
 from excel2pycl.src.excel import Excel
+from excel2pycl.src.exceptions import E2PyclParserException
 from excel2pycl.src.tokens import ExpressionToken, AmpersandToken, DateControlConstructionToken, \
     TodayControlConstructionToken, EqOperatorToken, NotEqOperatorToken, GtOperatorToken, GtOrEqualOperatorToken, \
-    LtOperatorToken, LtOrEqualOperatorToken, PercentToken, OneLeftOperandExpressionToken
+    LtOperatorToken, LtOrEqualOperatorToken, PercentToken, OneLeftOperandExpressionToken, PlusOperatorToken, \
+    MinusOperatorToken, MultiplicationOperatorToken, DivOperatorToken, OneOperandArithmeticOperatorToken, \
+    BracketStartToken
 from excel2pycl.src.translators.abstract_translator import AbstractTranslator
 
 
 class ExpressionTokenTranslator(AbstractTranslator):
     _DATE_TOKENS = [DateControlConstructionToken, TodayControlConstructionToken]
 
+    _COMPARE_TOKENS = (EqOperatorToken, NotEqOperatorToken, GtOperatorToken, GtOrEqualOperatorToken,
+                       LtOperatorToken, LtOrEqualOperatorToken)
+
+    # Binary operators by Excel precedence, from the loosest to the tightest; each level associates to the left.
+    # Unary sign and percent bind tighter than all of them and are applied to the operand while flattening.
+    _PRECEDENCE = (_COMPARE_TOKENS, (AmpersandToken,), (PlusOperatorToken, MinusOperatorToken),
+                   (MultiplicationOperatorToken, DivOperatorToken))
+
     @classmethod
     def translate(cls, token: ExpressionToken | OneLeftOperandExpressionToken, excel: Excel, context: Context) -> str:
+        return cls._group(cls._flatten(token, excel, context), 0, excel, context)
+
+    _NORMALIZE = 'self._normalize_float_number'
+
+    @classmethod
+    def _percent(cls, operand: str) -> str:
+        return f'{cls._NORMALIZE}({operand} / 100)'
+
+    @classmethod
+    def _flatten(cls, token: ExpressionToken | OneLeftOperandExpressionToken, excel: Excel, context: Context) -> list:
+        """
+        The grammar is right-recursive (operand operator rest), so the token tree says nothing about precedence.
+        Unrolls it into [operand, operator, operand, ...], where the operands are already translated
+        together with their brackets, unary signs and percents.
+        """
         from excel2pycl.src.translators.operand_token_translator import OperandTokenTranslator
+
+        first, tail = token.value[0], token.value[1:]
+
+        if isinstance(first, OneOperandArithmeticOperatorToken):
+            rest = cls._flatten(tail[0], excel, context)
+            rest[0] = f'({first.operator.value[0]}{rest[0]})'
+            return rest
+
+        if isinstance(first, BracketStartToken):
+            operand, tail = f'({cls.translate(tail[0], excel, context)})', tail[2:]
+        elif isinstance(first, OneLeftOperandExpressionToken):
+            if len(first.value) != 2:
+                raise E2PyclParserException('An operator is expected after a percent sign')
+            operand = cls._percent(OperandTokenTranslator.translate(first.left_operand, excel, context))
+        else:
+            operand = OperandTokenTranslator.translate(first, excel, context)
+            if isinstance(token, OneLeftOperandExpressionToken):
+                if len(token.value) != 2:
+                    raise E2PyclParserException('An operator is expected after a percent sign')
+                return [cls._percent(operand)]
+
+        if not tail:
+            return [operand]
+
+        operator, rest = tail[0].operator, tail[1]
+        if isinstance(operator, PercentToken):
+            # operand % sign rest: the sign that follows the percent is the binary operator
+            if not isinstance(rest.value[0], OneOperandArithmeticOperatorToken):
+                raise E2PyclParserException('An operator is expected after a percent sign')
+            operand, operator, rest = cls._percent(operand), rest.value[0].operator, rest.value[1]
+
+        return [operand, operator] + cls._flatten(rest, excel, context)
+
+    @classmethod
+    def _group(cls, items: list, level: int, excel: Excel, context: Context) -> str:
+        """
+        Groups a flat [operand, operator, operand, ...] list by the operators of the given precedence level,
+        everything between them is grouped by the tighter levels first.
+        """
         from excel2pycl.src.translators.operator_sub_token_translator import OperatorSubTokenTranslator
 
-        operator, left_operand, left_brackets, right_brackets, right_operand = token.operator, token.left_operand, \
-            None, None, None
+        if len(items) == 1:
+            return items[0]
 
-        if isinstance(token, ExpressionToken):
-            left_brackets, right_brackets, right_operand = token.left_brackets, token.right_brackets, \
-                  token.right_operand
+        if level == len(cls._PRECEDENCE):
+            raise E2PyclParserException('Unknown operator in expression')
 
-        if left_operand:
-            token_translator = ExpressionTokenTranslator if \
-                left_operand.__class__ in [ExpressionToken, OneLeftOperandExpressionToken] \
-                else OperandTokenTranslator
-
-            left_operand = token_translator.translate(left_operand, excel, context)
-            left_operand = f'({left_operand})' if left_brackets else left_operand
-
-        if right_operand:
-            token_translator = ExpressionTokenTranslator \
-                if right_operand.__class__ is ExpressionToken else OperandTokenTranslator
-
-            right_operand = token_translator.translate(right_operand, excel, context)
-            right_operand = f'({right_operand})' if right_brackets else right_operand
-
-        if operator:
-            if operator.__class__ is AmpersandToken:
-                left_operand = f'str({left_operand})'
-                right_operand = f'str({right_operand})'
-
-            # попытка заставить сравнение работать так, как надо
-            compare_tokens = (EqOperatorToken, NotEqOperatorToken, GtOperatorToken, GtOrEqualOperatorToken,
-                              LtOperatorToken, LtOrEqualOperatorToken)
-
-            if isinstance(operator, compare_tokens) and left_operand and right_operand:
-                operator = OperatorSubTokenTranslator.translate(operator, excel, context)
-                return f'self._compare("{operator}", {left_operand}, {right_operand})'
-
-            if operator.__class__ is PercentToken:
-                left_operand = f'self._normalize_float_number({left_operand} / 100)'
-                operator = None
+        parts, operators = [[]], []
+        for item in items:
+            if isinstance(item, cls._PRECEDENCE[level]):
+                operators.append(item)
+                parts.append([])
             else:
-                operator = OperatorSubTokenTranslator.translate(operator, excel, context)
+                parts[-1].append(item)
 
-            if isinstance(token.left_operand, OneLeftOperandExpressionToken) and \
-                    isinstance(token.left_operand.operator, PercentToken):
-                return f"self._normalize_float_number({left_operand or ''}{operator or ''}{right_operand or ''})"
+        result = cls._group(parts[0], level + 1, excel, context)
+        for operator, part in zip(operators, parts[1:]):
+            right_operand = cls._group(part, level + 1, excel, context)
+            operator_code = OperatorSubTokenTranslator.translate(operator, excel, context)
+            if isinstance(operator, cls._COMPARE_TOKENS):
+                result = f'self._compare("{operator_code}", {result}, {right_operand})'
+            elif isinstance(operator, AmpersandToken):
+                result = f'(str({result}){operator_code}str({right_operand}))'
+            elif result.startswith(cls._NORMALIZE):
+                # an operation on a percent stays normalized to 15 significant digits: 7% * 12 is 0.84
+                result = f'{cls._NORMALIZE}({result}{operator_code}{right_operand})'
+            else:
+                result = f'({result}{operator_code}{right_operand})'
 
-        return f"{left_operand or ''}{operator or ''}{right_operand or ''}"
+        return result
